@@ -153,6 +153,25 @@ def run_shard(shard):
                 add_violation(res, "C03:dapc-word", f"DAPC(3,{word}) -> {c.frame.as_integer:#x}", {"t": "dapc"})
         if DAPC.sendtwice or DAPC.response is not None:
             add_violation(res, "C03:dapc-flags", "DAPC flags", {"t": "dapc"})
+        # destinations under every PUBLIC NAME the address module offers for them (the Gear* classes and the legacy names
+        # without prefix): IEC 62386-102 table 1 address byte 0AAAAAAS / 100AAAAS / 1111111S / 1111110S
+        import dali.address as _A
+        from dali.gear.general import Off, QueryStatus
+        table1 = {"Short": ((5,), 5), "Group": ((5,), 0x40 | 5), "Broadcast": ((), 0x7F), "BroadcastUnaddressed": ((), 0x7E)}
+        for base, (args, a7) in table1.items():
+            for nm in (base, "Gear" + base):
+                cls = getattr(_A, nm, None)
+                if cls is None:
+                    continue                     # (a name the library does not offer is nothing to check)
+                for mk, want in ((lambda d: Off(d), (a7 << 9) | 0x100), (lambda d: QueryStatus(d), (a7 << 9) | 0x190), (lambda d: DAPC(d, 128), (a7 << 9) | 128)):
+                    res["evaluations"] += 1
+                    try:
+                        got = mk(cls(*args)).frame.as_integer
+                    except Exception as e:
+                        got = repr(e)
+                    if got != want:
+                        add_violation(res, f"C03:destination-by-name:{nm}", f"a command addressed to dali.address.{nm}{args} is emitted as "
+                                      f"{got if isinstance(got, str) else hex(got)}, IEC 62386-102 table 1 assigns {want:#06x}", {"t": "dapc"})
         res["distinct"].add(("gear.general", "DAPC"))
         sample(res, {"dapc": "82 destinations x 256 levels"})
     elif k == "event":
